@@ -19,6 +19,8 @@ pub enum Op {
     Len,
     HasMore,
     Skip,
+    /// a single pull made from a destructor while the thread unwinds from an unrelated panic
+    UnwindNext,
 }
 
 impl Op {
@@ -36,6 +38,7 @@ impl Op {
             Op::Len => "try_get_len",
             Op::HasMore => "has_more",
             Op::Skip => "skip_to_end",
+            Op::UnwindNext => "next_id_and_value(while unwinding)",
         }
     }
     pub fn code(&self) -> u8 {
@@ -52,6 +55,7 @@ impl Op {
             Op::Len => 9,
             Op::HasMore => 10,
             Op::Skip => 11,
+            Op::UnwindNext => 12,
         }
     }
     pub fn is_pull(&self) -> bool {
@@ -78,7 +82,7 @@ impl Op {
     }
 }
 
-pub const OP_NAMES: [&str; 12] = [
+pub const OP_NAMES: [&str; 13] = [
     "next",
     "next_id_and_value",
     "next_chunk",
@@ -91,6 +95,7 @@ pub const OP_NAMES: [&str; 12] = [
     "try_get_len",
     "has_more",
     "skip_to_end",
+    "next_id_and_value(while unwinding)",
 ];
 
 #[derive(Clone, Debug, Default)]
@@ -147,27 +152,29 @@ pub struct Profile {
     pub huge16: u32,
     /// probability (x/16) that a one-shot chunk requests zero elements
     pub zero16: u32,
+    /// probability (x/64) that a single pull is made from a destructor during unwinding
+    pub unwind64: u32,
 }
 
 pub fn profile(name: &str) -> Profile {
     //            next nid chunk buf vals ids fe efe fold len more skip
     let base = [6, 6, 6, 5, 2, 2, 1, 1, 1, 2, 2, 0];
     match name {
-        "mixed" => Profile { name: "mixed", w: base, drain16: 10, post16: 8, max_pre: 6, skips: false, huge16: 0, zero16: 0 },
-        "pulls" => Profile { name: "pulls", w: [6, 6, 7, 6, 3, 3, 2, 2, 2, 0, 0, 0], drain16: 14, post16: 4, max_pre: 5, skips: false, huge16: 0, zero16: 0 },
-        "index" => Profile { name: "index", w: [1, 8, 6, 6, 0, 5, 0, 4, 0, 0, 0, 0], drain16: 12, post16: 2, max_pre: 6, skips: false, huge16: 0, zero16: 0 },
-        "chunks" => Profile { name: "chunks", w: [2, 2, 10, 10, 0, 0, 1, 1, 1, 0, 0, 0], drain16: 10, post16: 4, max_pre: 7, skips: false, huge16: 2, zero16: 0 },
-        "order" => Profile { name: "order", w: [6, 8, 6, 5, 2, 2, 0, 0, 0, 1, 1, 0], drain16: 6, post16: 3, max_pre: 8, skips: false, huge16: 2, zero16: 0 },
-        "pastend" => Profile { name: "pastend", w: [6, 6, 5, 5, 2, 2, 1, 1, 1, 3, 3, 0], drain16: 14, post16: 16, max_pre: 3, skips: false, huge16: 0, zero16: 0 },
-        "skip" => Profile { name: "skip", w: [6, 6, 5, 5, 2, 2, 1, 1, 1, 3, 3, 5], drain16: 6, post16: 16, max_pre: 6, skips: true, huge16: 0, zero16: 0 },
-        "len" => Profile { name: "len", w: [5, 5, 5, 4, 1, 1, 1, 1, 0, 8, 8, 1], drain16: 8, post16: 10, max_pre: 8, skips: true, huge16: 0, zero16: 0 },
-        "foreach" => Profile { name: "foreach", w: [2, 2, 2, 2, 1, 1, 6, 6, 6, 0, 0, 0], drain16: 8, post16: 6, max_pre: 3, skips: false, huge16: 0, zero16: 0 },
-        "iterwait" => Profile { name: "iterwait", w: [6, 6, 6, 6, 2, 2, 1, 1, 1, 1, 1, 2], drain16: 8, post16: 6, max_pre: 6, skips: true, huge16: 0, zero16: 0 },
-        "zero" => Profile { name: "zero", w: [5, 5, 8, 4, 1, 1, 1, 1, 0, 5, 5, 1], drain16: 6, post16: 6, max_pre: 8, skips: true, huge16: 1, zero16: 4 },
-        "zeroeach" => Profile { name: "zeroeach", w: [2, 2, 6, 2, 1, 1, 5, 5, 5, 1, 1, 0], drain16: 8, post16: 4, max_pre: 4, skips: false, huge16: 0, zero16: 6 },
-        "skiprace" => Profile { name: "skiprace", w: [1, 1, 10, 10, 0, 0, 1, 1, 1, 1, 1, 6], drain16: 4, post16: 8, max_pre: 5, skips: true, huge16: 0, zero16: 0 },
-        "race" => Profile { name: "race", w: [6, 3, 3, 3, 1, 1, 1, 1, 0, 2, 2, 1], drain16: 16, post16: 2, max_pre: 2, skips: true, huge16: 0, zero16: 0 },
-        "drops" => Profile { name: "drops", w: [5, 5, 8, 8, 1, 1, 1, 1, 1, 0, 0, 2], drain16: 5, post16: 4, max_pre: 6, skips: true, huge16: 0, zero16: 0 },
+        "mixed" => Profile { name: "mixed", w: base, drain16: 10, post16: 8, max_pre: 6, skips: false, huge16: 0, zero16: 0, unwind64: 1 },
+        "pulls" => Profile { name: "pulls", w: [6, 6, 7, 6, 3, 3, 2, 2, 2, 0, 0, 0], drain16: 14, post16: 4, max_pre: 5, skips: false, huge16: 0, zero16: 0, unwind64: 1 },
+        "index" => Profile { name: "index", w: [1, 8, 6, 6, 0, 5, 0, 4, 0, 0, 0, 0], drain16: 12, post16: 2, max_pre: 6, skips: false, huge16: 0, zero16: 0, unwind64: 1 },
+        "chunks" => Profile { name: "chunks", w: [2, 2, 10, 10, 0, 0, 1, 1, 1, 0, 0, 0], drain16: 10, post16: 4, max_pre: 7, skips: false, huge16: 2, zero16: 0, unwind64: 1 },
+        "order" => Profile { name: "order", w: [6, 8, 6, 5, 2, 2, 0, 0, 0, 1, 1, 0], drain16: 6, post16: 3, max_pre: 8, skips: false, huge16: 2, zero16: 0, unwind64: 1 },
+        "pastend" => Profile { name: "pastend", w: [6, 6, 5, 5, 2, 2, 1, 1, 1, 3, 3, 0], drain16: 14, post16: 16, max_pre: 3, skips: false, huge16: 0, zero16: 0, unwind64: 1 },
+        "skip" => Profile { name: "skip", w: [6, 6, 5, 5, 2, 2, 1, 1, 1, 3, 3, 5], drain16: 6, post16: 16, max_pre: 6, skips: true, huge16: 0, zero16: 0, unwind64: 1 },
+        "len" => Profile { name: "len", w: [5, 5, 5, 4, 1, 1, 1, 1, 0, 8, 8, 1], drain16: 8, post16: 10, max_pre: 8, skips: true, huge16: 0, zero16: 0, unwind64: 1 },
+        "foreach" => Profile { name: "foreach", w: [2, 2, 2, 2, 1, 1, 6, 6, 6, 0, 0, 0], drain16: 8, post16: 6, max_pre: 3, skips: false, huge16: 0, zero16: 0, unwind64: 1 },
+        "iterwait" => Profile { name: "iterwait", w: [6, 6, 6, 6, 2, 2, 1, 1, 1, 1, 1, 2], drain16: 8, post16: 6, max_pre: 6, skips: true, huge16: 0, zero16: 0, unwind64: 1 },
+        "zero" => Profile { name: "zero", w: [5, 5, 8, 4, 1, 1, 1, 1, 0, 5, 5, 1], drain16: 6, post16: 6, max_pre: 8, skips: true, huge16: 1, zero16: 4, unwind64: 0 },
+        "zeroeach" => Profile { name: "zeroeach", w: [2, 2, 6, 2, 1, 1, 5, 5, 5, 1, 1, 0], drain16: 8, post16: 4, max_pre: 4, skips: false, huge16: 0, zero16: 6, unwind64: 0 },
+        "skiprace" => Profile { name: "skiprace", w: [1, 1, 10, 10, 0, 0, 1, 1, 1, 1, 1, 6], drain16: 4, post16: 8, max_pre: 5, skips: true, huge16: 0, zero16: 0, unwind64: 1 },
+        "race" => Profile { name: "race", w: [6, 3, 3, 3, 1, 1, 1, 1, 0, 2, 2, 1], drain16: 16, post16: 2, max_pre: 2, skips: true, huge16: 0, zero16: 0, unwind64: 1 },
+        "drops" => Profile { name: "drops", w: [5, 5, 8, 8, 1, 1, 1, 1, 1, 0, 0, 2], drain16: 5, post16: 4, max_pre: 6, skips: true, huge16: 0, zero16: 0, unwind64: 1 },
         other => panic!("unknown profile {other}"),
     }
 }
@@ -208,6 +215,7 @@ pub fn gen_op(rng: &mut Rng, p: &Profile, len: usize, pulls_only: bool, wrapped:
         x -= w;
     }
     match code {
+        0 | 1 if p.unwind64 > 0 && rng.chance(p.unwind64, 64) => Op::UnwindNext,
         0 => Op::Next,
         1 => Op::NextIdVal,
         2 => {
